@@ -341,6 +341,24 @@ inline void campaign(const char* wlname, const Args& a, vh::Rng& rng, const char
     g_shape = 0;
     runOne<WL>(prog, rc);
   }
+  // bursts (free-running only): many short loops over a wide initial range with trivial items and nothing pushed -- the
+  // threads spend the loop in the worklist's hand-over / stealing code rather than in the operator
+  if (a.mode == "free") {
+    int bursts = mult * (a.thorough ? 150 : 40);
+    for (int e = 0; e < bursts; ++e) {
+      uint64_t s = rng.next();
+      RunCfg rc;
+      rc.wlname = wlname; rc.mode = a.mode; rc.seed = s; rc.kind = kind; rc.descending = descending;
+      rc.threads = 2 + (int)(s % (std::min(maxT, 8u) - 1));
+      rc.conflicts = false;
+      Program prog;
+      vh::Rng pr(s ^ 0x3333);
+      genProgram(prog, pr, 8 + (int)pr.below(57), 0, 0, 0, level, false, level ? 3 : 0);
+      for (auto& it : prog.items) it.alloc = 0;
+      if (descending) for (auto& it : prog.items) it.level = -it.level;
+      runOne<WL>(prog, rc);
+    }
+  }
 }
 
 } // namespace fe
